@@ -4,7 +4,7 @@ use crate::exec::{Outcome, Prop, Tier, catch, hash64};
 use crate::genr::choices::Choices;
 use cfgrammar::{NewlineCache, Span};
 use lrlex::{DefaultLexerTypes, LRNonStreamingLexerDef, LexerDef};
-use lrpar::{LexError, LexParseError, Lexer, NonStreamingLexer};
+use lrpar::{LexError, LexParseError, Lexeme, Lexer, NonStreamingLexer};
 use serde::{Deserialize, Serialize};
 use serde_json::Value;
 
@@ -138,7 +138,7 @@ impl Prop for C19 {
         serde_json::to_value(Case { chunks }).unwrap()
     }
     fn rule(&self) -> String {
-        "texts from line fragments over {a,é,漢,♠,space,tab} joined by LF/CRLF/lone CR, random chunkings on char boundaries (empty chunks included); every char-boundary offset and every span (s<=e) of the text is queried (NewlineCache, the lexer's line_col/span_lines_str, LexParseError::pp, and the builders' SpannedDiagnosticFormatter::file_location_msg / underline_span_with_text) and compared with a naive scan (1+count of LF; chars since line start; rfind/find of LF; numbered source rows). One evaluation = one (text,chunking) with all its offsets and spans. Non-trivial: >=2 lines and (multi-byte char or CRLF) and a query touching a line boundary/end of text (always the case since all boundaries are enumerated); distinct by (text, chunking).".into()
+        "texts from line fragments over {a,é,漢,♠,space,tab} joined by LF/CRLF/lone CR, random chunkings on char boundaries (empty chunks included); every char-boundary offset and every span (s<=e) of the text is queried (NewlineCache, the lexer's line_col/span_lines_str, LexParseError::pp for lexing and for parse errors (recovery off and on), and the builders' SpannedDiagnosticFormatter::file_location_msg / underline_span_with_text) and compared with a naive scan (1+count of LF; chars since line start; rfind/find of LF; numbered source rows). One evaluation = one (text,chunking) with all its offsets and spans. Non-trivial: >=2 lines and (multi-byte char or CRLF) and a query touching a line boundary/end of text (always the case since all boundaries are enumerated); distinct by (text, chunking).".into()
     }
     fn assumptions(&self) -> Vec<String> {
         vec![
@@ -147,7 +147,7 @@ impl Prop for C19 {
         ]
     }
     fn required_classes(&self, _tier: Tier) -> Vec<&'static str> {
-        vec!["crlf", "multibyte", "multi-chunk", "empty-text", "trailing-newline", "span-ends-at-line-start"]
+        vec!["crlf", "multibyte", "multi-chunk", "empty-text", "trailing-newline", "span-ends-at-line-start", "pp-lex-error", "pp-parse-error"]
     }
 
     fn evaluate(&self, case: &Value) -> Outcome {
@@ -377,6 +377,51 @@ impl Prop for C19 {
                                 format!("span {s}..{e}: got {lc:?} expected {exp:?}"),
                             );
                             return o;
+                        }
+                    }
+                }
+            }
+        }
+        // pretty-printing of a parse error reports the position of its lexeme
+        {
+            use std::sync::OnceLock;
+            type G = (cfgrammar::yacc::YaccGrammar<u32>, lrtable::StateTable<u32>, LRNonStreamingLexerDef<DefaultLexerTypes<u32>>);
+            static PARSER: OnceLock<G> = OnceLock::new();
+            let (grm, st, ld) = PARSER.get_or_init(|| {
+                let grm = cfgrammar::yacc::YaccGrammar::<u32>::new_with_storaget(
+                    cfgrammar::yacc::YaccKind::Original(cfgrammar::yacc::YaccOriginalActionKind::GenericParseTree),
+                    "%token X\n%%\nS: 'W' S | ;\n",
+                )
+                .unwrap();
+                let (_, st) = lrtable::from_yacc(&grm, lrtable::Minimiser::Pager).unwrap();
+                let mut ld = LRNonStreamingLexerDef::<DefaultLexerTypes<u32>>::from_str("%%\n[ab]+ 'W'\n[^ab \\t\\r\\n]+ 'X'\n[ \\t\\r\\n]+ ;\n").unwrap();
+                let map: std::collections::HashMap<&str, u32> = grm.tokens_map().iter().map(|(k, v)| (*k, u32::from(*v))).collect();
+                ld.set_rule_ids(&map);
+                (grm, st, ld)
+            });
+            let plexer = ld.lexer(&text);
+            for rk in [lrpar::RecoveryKind::None, lrpar::RecoveryKind::CPCTPlus] {
+                let errs = match catch(|| lrpar::RTParserBuilder::new(grm, st).recoverer(rk).parse_map(&plexer, &|_| (), &|_, _| ()).1) {
+                    Ok(e) => e,
+                    Err(p) => {
+                        o.fail("panic", format!("C19/parse/{}", p.signature()), p.detail());
+                        return o;
+                    }
+                };
+                if let Some(e @ LexParseError::ParseError(pe)) = errs.first() {
+                    let (l, c) = ref_line_col(&text, pe.lexeme().span().start());
+                    match catch(|| e.pp(&plexer, &|t| grm.token_epp(t))) {
+                        Err(p) => {
+                            o.fail("panic", format!("C19/pp-parse-error/{}", p.signature()), p.detail());
+                            return o;
+                        }
+                        Ok(s) => {
+                            o.class("pp-parse-error");
+                            let nums: Vec<usize> = s.split(|ch: char| !ch.is_ascii_digit()).filter(|x| !x.is_empty()).filter_map(|x| x.parse().ok()).collect();
+                            if nums.len() < 2 || nums[0] != l || nums[1] != c {
+                                o.fail("wrong", "C19/pp-parse-error/wrong", format!("got {s:?} expected line {l} column {c} for {text:?}"));
+                                return o;
+                            }
                         }
                     }
                 }
